@@ -149,7 +149,8 @@ PROPS = {
     "C05": dict(
         quick_scale=2, thorough_scale=6, run=native_three_profiles, level=EXPL, technique="metamorphic runtime monitor over scripted fault histories (error provenance, reset==fresh-instance, None-deletion, get-purity; bit-exact between runs of the real code)",
         rule="per stream type (14 incl. f32/Quantity variants) seeded histories of length <=48 over {present, absent, Err(1), Err(2)} from four grammar styles (iid, runs separated by resets, noise, reset followed by >=3 present), CommandPID also set(same/other value/other kind), freeze also condition {true,false,absent}; distinct = (stream, set of adjacent event-kind pairs, length class)",
-        assumptions=["reset table per stream taken from the property anchors (PID/Integral/Derivative: None+Err; CommandPID: None+Err+set(different); EWMA/MovingAverage/to-state: Err, None ignored; Float/Quantity converters: every update)",
+        assumptions=["long-silence histories (1-3 samples, 32-44 absent events in a row, samples again, all inside the window) are part of the grammar",
+                     "reset table per stream taken from the property anchors (PID/Integral/Derivative: None+Err; CommandPID: None+Err+set(different); EWMA/MovingAverage/to-state: Err, None ignored; Float/Quantity converters: every update)",
                      "freeze is not driven with an erroring condition getter (statement silent); after cond=absent then cond=true both absent and the last passed value are accepted",
                      "timestamps strictly increasing for PID/CommandPID/integral/derivative/to-state, non-decreasing for the filters"],
     ),
@@ -219,7 +220,8 @@ PROPS = {
         quick_scale=4, thorough_scale=4, run=native_three_profiles, level="fault_enumeration", technique="model-based runtime monitor: partner relation rebuilt from terminal reads alone (twice: from state reads of power-of-two labels and from command reads) and compared with a set-of-pairs model; exhaustive BFS over reachable matchings x operations under panic capture; f64 reference for the read semantics",
         level_text="Every reachable link state of 2..6 terminals x every connect/disconnect operation is enumerated (breadth-first) and executed on fresh terminals under panic capture, so the operation-sequence part of the quantifier is covered completely up to n=6; the value/timestamp part is sampled. Still only 'held on what was executed'.",
         rule="exhaustive BFS: for n = 2..=6 every one of the 2/4/10/26/76 matchings x every connect(i,j), i!=j, and disconnect(i) x labels written first or last, each edge replayed on fresh terminals; plus random walks of 64 steps on 2..6 terminals and random read-semantics histories of 8..20 steps (set-state, set-command, connect, disconnect) with all three reads of every terminal checked after every step; distinct = (n, matching, operation, variant) / (n, pre-matching, op) / structural shape of the history",
-        assumptions=["reads are repeated while shared borrows (Ref, never RefMut) of the partner / the terminal / both / an unrelated terminal are held and must neither panic nor change; states and commands may be delivered by follow + Terminal::update (a present followed datum becomes the own slot whatever its stamp; absent changes nothing; an error is returned and the slot is unchanged; the polling order of the two facets is not assumed); when the exact mean of two components is an f32 number and neither the operands nor the mean are below 2*MIN_POSITIVE (halving exact) the read must be that number",
+        assumptions=["write bursts of 1, 2, 255, 256, 257, 511, 512, 513 (and 65535..65537 by quota) consecutive sets between reads; sets performed while a RefMut / Ref of the partner or of an unrelated terminal is held (all permitted by the unchanged crate; connect / disconnect are not put under guards)",
+                     "reads are repeated while shared borrows (Ref, never RefMut) of the partner / the terminal / both / an unrelated terminal are held and must neither panic nor change; states and commands may be delivered by follow + Terminal::update (a present followed datum becomes the own slot whatever its stamp; absent changes nothing; an error is returned and the slot is unchanged; the polling order of the two facets is not assumed); when the exact mean of two components is an f32 number and neither the operands nor the mean are below 2*MIN_POSITIVE (halving exact) the read must be that number",
                      "connect(a,a) is never issued (outside the property)",
                      "state components finite with exponent headroom so the sum of two is finite; stamps are only compared",
                      "'latest' state/command of a terminal = the last set call; command ties may return either side",
@@ -238,7 +240,8 @@ PROPS = {
     "C15": dict(
         quick_scale=10, thorough_scale=16, run=native_three_profiles, level=EXPL, technique="model-based random operation sequences against an exact executable model; scripted recording history; fault-injecting getters, clocks and settable; panic capture",
         rule="three sub-checks: seq (operation sequences <=40 over a recording settable with scripted accept/reject, two scripted getters, a ConstantGetter that is settable/following/followable, four clock kinds), hist (GetterFromHistory over a scripted history recording every queried time, four constructors by quota, three clock kinds, <=40 ops from {get, clock advance/jump/error, set_delta, set_time, update with scripted errors}), adapters (Time as TimeGetter, NoneGetter, TimeGetterFromGetter, ConstantGetter); after every operation result, get_last_request, the impl_set log, get() and the history's query log are compared exactly with the model; distinct = (previous op, op, following state, followed-getter category) / (constructor, clock kind, op bigram, offset class) / event bigrams",
-        assumptions=["builtin sub-check: the same bookkeeping/following model over every impl of Settable in the crate - ConstantGetter, Terminal (its Datum<Command> and Datum<State> facets, unconnected; its own getters show the stored request) and CommandPID crossed with its process input being present / absent / erroring; for a Terminal whose OTHER facet's followed getter errs, forwarding on this facet is accepted either way (order undocumented); a CommandPID update may also return its process input's error, no order between error sources asserted",
+        assumptions=["the recording settable of the seq sub-check reads get_last_request() from inside impl_set and at the end of update(): the expectation is the last SUCCESSFULLY set value at that moment",
+                     "builtin sub-check: the same bookkeeping/following model over every impl of Settable in the crate - ConstantGetter, Terminal (its Datum<Command> and Datum<State> facets, unconnected; its own getters show the stored request) and CommandPID crossed with its process input being present / absent / erroring; for a Terminal whose OTHER facet's followed getter errs, forwarding on this facet is accepted either way (order undocumented); a CommandPID update may also return its process input's error, no order between error sources asserted",
                      "in hist clock values, starts, deltas and set_time targets range over the whole of i64, each partner quantity being constructed so that now+delta, start-now, t-now and -now stay inside i64 (clock readings > i64::MIN): nothing overflows",
                      "a read-once followed getter or clock (first poll differs from later polls) is decided by its FIRST read; poll counts are not asserted",
                      "a settable whose update() does not call update_following_data forwards nothing on update()",
@@ -270,7 +273,8 @@ PROPS = {
     "C20": dict(
         thorough_scale=4, run=native_three_profiles, level=EXPL, technique="recording and fault-injecting inner objects at the trait boundary; per-round differential against an oracle computed from the pre-update terminal read; bit-exact twin stand-alone CommandPID with identical wiring; exhaustive single-round grids",
         rule="two exhaustive single-round grids (actuator 384 cells: own/partner state and command present or absent, linked or not, stamp order, inner accept/reject/update-error; encoder 64 cells: getter present/absent/error-1/error-2, inner update ok/error, own slots empty or filled, partner) plus three random families (actuator, encoder, pid) of 1..=32-round histories in which each round delivers a new state and/or command (all three kinds) to the external and/or own terminal or re-links / disconnects them, with scripted reject / update-error / getter present-absent-erroring; distinct = per-round sequence of (what the terminal saw, inner outcome) (+ twin output class for pid)",
-        assumptions=["following strata (act/enc/pid-following): the wrapper's OWN terminal may receive state / command through followed getters (present or absent, never erring; stamps older / equal / newer than stored, |t| < 2^41); such data count as seen by the terminal from the wrapper's own update on (slot model + scratch pair of terminals gives the expected read); for the encoder only 'the getter's present state ends up in the own state slot' is asserted, the command slot and the no-write paths are not judged",
+        assumptions=["writing strata (act/enc/pid-writing): the inner object writes states / commands with fresh stamps to the wrapper's own terminal (only from its update()) and to the connected terminal (from any of its methods); a write must neither panic nor be lost, and counts as a third-party write for the following rounds; for the encoder a present getter state legitimately overwrites an inner write to the own state slot",
+                     "following strata (act/enc/pid-following): the wrapper's OWN terminal may receive state / command through followed getters (present or absent, never erring; stamps older / equal / newer than stored, |t| < 2^41); such data count as seen by the terminal from the wrapper's own update on (slot model + scratch pair of terminals gives the expected read); for the encoder only 'the getter's present state ends up in the own state slot' is asserted, the command slot and the no-write paths are not judged",
                      "observing strata (act/enc/pid-observing): the inner object reads its own and/or the connected terminal (TerminalData, State, Command, both last-request slots) from inside impl_set / update / get; every such read is permitted by the unchanged crate, must not panic, and must show what the monitor read immediately before the wrapper's update() (for the encoder only reads up to the first inner get() are compared)",
                      "'data the terminal sees' is read from the real terminal with Getter<TerminalData> immediately before update() and cross-checked (actuator and PID sub-checks) against a model built from the monitor's own slot writes: mean state within 2 ulps (not asserted below 2*MIN_POSITIVE or where the f32 sum would overflow), the newer command (either on a tie), the state's timestamp when there is a state (command-only timestamp not asserted)",
                      "after a failing inner.set the actuator wrapper may either call or skip inner.update() (statement silent); exactly one inner.update() per wrapper update() otherwise",
@@ -280,7 +284,8 @@ PROPS = {
     "C13": dict(
         run=native_three_profiles, level=EXPL, technique="model-based runtime oracle (newest issued command, side-mapping table) with exhaustive small-scope enumeration of command-slot assignments and quota-driven random histories and chains; snapshot bit-identity for the differential",
         rule="five sub-checks: assign (every assignment of {no command, distinct stamp ranks} to own and connected-external command slots x kind of the newest command, followed by 0-7 random rounds, for Invert, GearTrain via with_ratio_raw / with_ratio / new with 2-6 gears, Axle<1..3>), axle (Axle<1..=6> x each of the 2N slots as holder of the newest command x kind), random (single devices 1-8 rounds), chain (1-5 random Invert/GearTrain/Axle<2> joined by connect in random orientation, command injected at either end, devices updated in travel order, far end and every device exit checked), differential (five constructions x all 64 state-presence masks x 1-8 rounds); distinct = (device/constructor, connection pattern, first-round rank assignment, kind, issuing slot per round) / chain shape / per-round masks",
-        assumptions=["commands may be delivered through followed getters (device terminals pull them in during the device's own update, external terminals through an explicit Terminal::update run by the harness before it); gear trains are built through with_ratio_raw, with_ratio and the tooth-count constructor (2..6 gears) and driven in both directions",
+        assumptions=["about 30% of the cases draw command and state stamps from the whole i64 range (MIN, MIN+1, +-2^62, +-5e18, -1, 0, 1, MAX-1, MAX, uniform): the crate only compares stamps on these paths; devices are in part updated once and then MOVED (boxed, pushed into a Vec, put into a struct field, returned from a function) before their terminals are taken",
+                     "commands may be delivered through followed getters (device terminals pull them in during the device's own update, external terminals through an explicit Terminal::update run by the harness before it); gear trains are built through with_ratio_raw, with_ratio and the tooth-count constructor (2..6 gears) and driven in both directions",
                      "the harness is the only issuer of commands and every issued stamp is strictly larger than all earlier ones (equal stamps are outside the quantifier); the premise 'newest command readable before update' is re-confirmed before every update",
                      "inverter/axle values compared exactly on canonical bits; gear values within 4 ulp per device crossed (a command that went /r then *r may differ in the last bit) plus an f64 product cross-check for chains",
                      "ratios in +-[1e-2,1e2]; stamps within |t| <= 2^40; states are present at random but not judged here"],
